@@ -306,6 +306,12 @@ func vtChild(t *testing.T) {
 					continue
 				}
 				tg.inject(p)
+				if i == len(ps)/2 {
+					// the second half arrives half a minute later: whatever per-datagram state the
+					// first half left behind (reassembly, half-open handshakes) has aged by then
+					rawpeer.Settle()
+					time.Sleep(31 * time.Second)
+				}
 				if i%64 == 63 {
 					rawpeer.Settle()
 					tg.p4.Take()
